@@ -50,6 +50,7 @@ pub proof fn lemma_nval_zero<P: Prefix, T>(t: Seq<Node<P, T>>, live: ISet<int>, 
     if n > 0 { lemma_nval_zero(t, live, n - 1); }
 }
 
+#[verifier::opaque]
 pub open spec fn free_ok(free: Seq<usize>, n: int) -> bool {
     (forall|k: int| 0 <= k < free.len() ==> 0 < #[trigger] free[k] < n)
         && (forall|k: int, l: int| 0 <= k < l < free.len() ==> free[k] != free[l])
@@ -458,7 +459,9 @@ pub proof fn lemma_live_pop(free: Seq<usize>, n: int)
         !free.drop_last().contains(free.last()),
         forall|x: usize| x != free.last() ==> free.drop_last().contains(x) == free.contains(x),
         free.contains(free.last()),
+        0 < free.last() < n,
 {
+    reveal(free_ok);
     let f2 = free.drop_last();
     assert forall|x: usize| x != free.last() implies f2.contains(x) == free.contains(x) by {
         if free.contains(x) {
@@ -483,6 +486,7 @@ pub proof fn lemma_live_push(free: Seq<usize>, n: int, x: usize)
         free_ok(free.push(x), n),
         forall|y: usize| free.push(x).contains(y) == (free.contains(y) || y == x),
 {
+    reveal(free_ok);
     let f2 = free.push(x);
     assert forall|y: usize| f2.contains(y) == (free.contains(y) || y == x) by {
         if free.contains(y) {
@@ -511,4 +515,26 @@ pub proof fn lemma_wf_bounds<P: Prefix, T>(m: PrefixMap<P, T>)
 {
     lemma_nval_bounds(m.tab(), m.live(), m.tab().len() as int);
     lemma_glob(m.tab(), m.live());
+}
+
+pub proof fn lemma_free_empty(n: int)
+    ensures free_ok(Seq::<usize>::empty(), n)
+{
+    reveal(free_ok);
+}
+
+/// the free list keeps its hygiene when the arena grows
+pub proof fn lemma_free_grow(free: Seq<usize>, n: int, n2: int)
+    requires free_ok(free, n), n <= n2
+    ensures free_ok(free, n2)
+{
+    reveal(free_ok);
+}
+
+/// members of the free list are valid non-root slots
+pub proof fn lemma_free_member(free: Seq<usize>, n: int, x: usize)
+    requires free_ok(free, n), free.contains(x)
+    ensures 0 < x < n
+{
+    reveal(free_ok);
 }
